@@ -248,10 +248,19 @@ func init() {
 	// ---------------- C06 ----------------
 	harness.Register(&harness.Check{
 		ID: "C06", Level: "exploration",
-		Rule:        progRule + "; oracle: (1) a monitor on the typechecker's own judgements (hook inserted by the instrumenter at the entry of every typecheckForm): in every judgement entered while accepting a program, every x : B_k in the context must satisfy k >= m for the provider mode m (reference table R-mode); (2) every shift in every type of an accepted program is between comparable modes in the permitted direction; distinct_nontrivial = accepted programs with at least one judgement whose context is non-empty",
+		Rule:        progRule + "; oracle: (1) a monitor on the typechecker's own judgements (hook inserted by the instrumenter at the entry of every typecheckForm): in every judgement entered while accepting a program, every x : B_k in the context must satisfy k >= m for the provider mode m (reference table R-mode); (2) every shift in every type of an accepted program is between comparable modes in the permitted direction (the program space is extended by all 32 shift forms under every annotation as definitions); distinct_nontrivial = accepted programs with at least one judgement whose context is non-empty",
 		Assumptions: []string{"judgements are observed at the entry of typecheckForm (context, provider type); top-level process declarations are the known finding K1"},
-		Cases:       func(c *harness.Ctx) int { return getMutSpace(c).total },
+		Cases:       func(c *harness.Ctx) int { return getMutSpace(c).total + 1 },
 		Run: func(c *harness.Ctx, idx int, r *harness.Rec) {
+			if idx == getMutSpace(c).total {
+				// every one of the 32 shift forms, under every annotation, as a definition with an identity function
+				sp := gen.EnvSpace{Names: []string{"A"}, Bodies: gen.Annotated(gen.Types(1, gen.TypeOpts{Shifts: gen.AllShifts()}), gen.Annotations(false)), N: 1}
+				for i := 0; i < sp.Count(); i++ {
+					e := sp.At(i)
+					checkC06(envProgram(e), "shift form "+strings.TrimSpace(e.String()), r)
+				}
+				return
+			}
 			base, progs := getMutSpace(c).programsOfCase(idx)
 			for _, m := range progs {
 				text := m.P.String()
